@@ -100,7 +100,10 @@ def r15_1(run):
     run.floor('R15.1', 'HS_DESC legs in hs_desc', len(lg), 3)
     for need in ('UPLOAD', 'UPLOADED', 'FAILED'):
         run.ob('R15.1', hs, hs.node, 'hs_desc has a leg for %s' % need, need in lg, slot='leg:%s' % need, message='no leg for %s' % need)
-    # every mutation / fire is guarded by hostname_matches(<event address>)
+    # every mutation / fire is guarded by hostname_matches(<event address>) - the ownership test has to exist under that name for
+    # the guards to be recognised (moved / renamed beyond what canon.py undoes: an honest "anchor vanished", not a finding)
+    if not [c for c in u.children if c.name == 'hostname_matches']:
+        raise AnchorVanished('hostname_matches')
     for n in g.real_nodes():
         if n.kind != 'stmt':
             continue
